@@ -177,7 +177,21 @@ func c18wFreeAddr() string {
 	return a
 }
 
+// the WebSocket listener gets a port that was free a moment ago: when another process took it in between, or the
+// machine is too busy for the listeners to come up in time, the case is run again (a harness condition, not a verdict)
 func c18wRun(in *Sx) *Sx {
+	var out *Sx
+	for attempt := 0; attempt < 4; attempt++ {
+		out = c18wRunOnce(in)
+		if !out.Has("harness_error") {
+			return out
+		}
+		time.Sleep(time.Duration(50*(attempt+1)) * time.Millisecond)
+	}
+	return out
+}
+
+func c18wRunOnce(in *Sx) *Sx {
 	v := byte(in.Field1("v").Int())
 	stream := c18wStream(v, in.Field1("npub").Int(), in.Field1("payload").Int())
 	cfg := config.DefaultConfig()
